@@ -29,7 +29,7 @@ ASSUMPTIONS = ['alpha, shift rational (every float is); phases multiples of 1/L 
                'inverse / Parseval theorems: scalars are Coquelicot complex numbers, sqrt is any function with sq(q)^2 = q for q >= 0',
                'Gaussian-integer input data; comparison tolerance 1e-9*(1+max|model|)']
 RULE = ('random dft2/idft2/round-trip cases: shapes 1..7 (odd, even, 1, non-square), alpha_r, alpha_c = p/q independent, '
-        'shifts k/4 or k/2, offsets in [-6,6], both flags, out in {None, complex buffer, f itself, float buffer, wrong shape}; '
+        'shifts k/4 or k/2, offsets in [-6,6], both flags, out in {None, complex buffer, f itself, float buffer, wrong shape} (dft2 and idft2); '
         'non-trivial = m*n>1 and at least two of {alpha_r!=alpha_c, shift!=0, offset!=0, MxN!=mxn}')
 
 TOL = 1e-9
@@ -86,7 +86,8 @@ def generate(rng, tier):
                  'M': M, 'N': N,
                  'shr': str(Fraction(rng.randint(-4, 4), rng.choice([1, 2]))) if rng.random() < 0.4 else '0',
                  'shc': str(Fraction(rng.randint(-4, 4), rng.choice([1, 2]))) if rng.random() < 0.4 else '0',
-                 'unitary': rng.random() < 0.5}
+                 'unitary': rng.random() < 0.5,
+                 'out': rng.choice(['none', 'complex', 'complex', 'float', 'badshape', 'complex64'])}
         else:
             c = {'op': 'roundtrip', 'f': rnd_data(rng, m, n), 'ar': str(Fraction(1, m)), 'ac': str(Fraction(1, n)),
                  'M': m, 'N': n, 'unitary': rng.random() < 0.5}
@@ -97,7 +98,7 @@ def generate(rng, tier):
 
 
 def classify(c):
-    return c['op'] + ('/' + c.get('out', '') if c['op'] == 'dft2' else '') + ('/unitary' if c.get('unitary') else '')
+    return c['op'] + ('/' + c.get('out', 'none') if c['op'] in ('dft2', 'idft2') else '') + ('/unitary' if c.get('unitary') else '')
 
 
 def nontrivial(c):
@@ -123,27 +124,27 @@ def enc_f(f):
     return out
 
 
+def enc_out(c):
+    o = c.get('out', 'none')
+    if o == 'none':
+        return [0]
+    if o in ('complex', 'self'):
+        return [1, c['M'], c['N']]
+    if o in ('float', 'complex64'):      # numpy refuses to cast complex128 into complex64 under 'safe' casting
+        return [2, c['M'], c['N']]
+    return [1, c['M'] + 1, c['N']]
+
+
 def encode(c):
     L = case_L(c)
     if c['op'] == 'dft2':
-        o = c['out']
-        m, n = len(c['f']), len(c['f'][0])
-        if o == 'none':
-            oe = [0]
-        elif o in ('complex', 'self'):
-            oe = [1, c['M'], c['N']]
-        elif o == 'float':
-            oe = [2, c['M'], c['N']]
-        elif o == 'complex64':
-            oe = [2, c['M'], c['N']]     # numpy refuses to cast complex128 into complex64 under 'safe' casting
-        else:
-            oe = [1, c['M'] + 1, c['N']]
+        oe = enc_out(c)
         return ([1, L] + enc_f(c['f']) + C.enc_q(Fraction(c['ar'])) + C.enc_q(Fraction(c['ac'])) + [c['M'], c['N']]
                 + C.enc_q(Fraction(c['shr'])) + C.enc_q(Fraction(c['shc'])) + [c['offr'], c['offc']]
                 + [1 if c['unitary'] else 0] + oe)
     if c['op'] == 'idft2':
         return ([2, L] + enc_f(c['f']) + C.enc_q(Fraction(c['ar'])) + C.enc_q(Fraction(c['ac'])) + [c['M'], c['N']]
-                + C.enc_q(Fraction(c['shr'])) + C.enc_q(Fraction(c['shc'])) + [1 if c['unitary'] else 0])
+                + C.enc_q(Fraction(c['shr'])) + C.enc_q(Fraction(c['shc'])) + [1 if c['unitary'] else 0] + enc_out(c))
     if c['op'] == 'roundtrip':
         return [3, L] + enc_f(c['f']) + [1 if c['unitary'] else 0]
     return None
@@ -167,6 +168,22 @@ def to_np(f):
     return np.array([[complex(v[0], v[1]) for v in row] for row in f], dtype=complex)
 
 
+def make_out(c, f):
+    o = c.get('out', 'none')
+    rng = np.random.default_rng(7)
+    if o == 'none':
+        return None
+    if o == 'complex':
+        return (rng.normal(size=(c['M'], c['N'])) + 1j * rng.normal(size=(c['M'], c['N']))).astype(complex)
+    if o == 'self':
+        return f
+    if o == 'float':
+        return rng.normal(size=(c['M'], c['N']))
+    if o == 'complex64':
+        return np.zeros((c['M'], c['N']), dtype=np.complex64)
+    return np.zeros((c['M'] + 1, c['N']), dtype=complex)
+
+
 def run_impl(c):
     lentil = C.import_lentil()
     f = to_np(c['f'])
@@ -174,20 +191,7 @@ def run_impl(c):
     try:
         if c['op'] == 'dft2':
             shift = (float(Fraction(c['shr'])), float(Fraction(c['shc'])))
-            o = c['out']
-            rng = np.random.default_rng(7)
-            if o == 'none':
-                out = None
-            elif o == 'complex':
-                out = (rng.normal(size=(c['M'], c['N'])) + 1j * rng.normal(size=(c['M'], c['N']))).astype(complex)
-            elif o == 'self':
-                out = f
-            elif o == 'float':
-                out = rng.normal(size=(c['M'], c['N']))
-            elif o == 'complex64':
-                out = np.zeros((c['M'], c['N']), dtype=np.complex64)
-            else:
-                out = np.zeros((c['M'] + 1, c['N']), dtype=complex)
+            out = make_out(c, f)
             F = lentil.fourier.dft2(f, alpha, shape=(c['M'], c['N']), shift=shift, offset=(c['offr'], c['offc']),
                                     unitary=c['unitary'], out=out)
             res = {'arr': np.asarray(F).tolist(), 'same_buffer': (out is not None and F is out)}
@@ -196,8 +200,15 @@ def run_impl(c):
             return res
         if c['op'] == 'idft2':
             shift = (float(Fraction(c['shr'])), float(Fraction(c['shc'])))
-            F = lentil.fourier.idft2(f, alpha, shape=(c['M'], c['N']), shift=shift, unitary=c['unitary'])
-            return {'arr': np.asarray(F).tolist()}
+            out = make_out(c, f)
+            F = lentil.fourier.idft2(f, alpha, shape=(c['M'], c['N']), shift=shift, unitary=c['unitary'], out=out)
+            res = {'arr': np.asarray(F).tolist(), 'same_buffer': (out is not None and F is out)}
+            if out is not None:
+                if not np.array_equal(np.asarray(out), np.asarray(F)):
+                    res['out_differs'] = True
+                fresh = lentil.fourier.idft2(f, alpha, shape=(c['M'], c['N']), shift=shift, unitary=c['unitary'])
+                res['fresh'] = np.asarray(fresh).tolist()
+            return res
         if c['op'] == 'roundtrip':
             F = lentil.fourier.dft2(f, alpha, unitary=c['unitary'])
             g = lentil.fourier.idft2(F, alpha, unitary=c['unitary'])
@@ -273,8 +284,21 @@ def oracle(c, impl):
             return 'result was not written into the supplied buffer'
         return None
     if c['op'] == 'idft2':
+        o = c.get('out', 'none')
+        if o in ('float', 'complex64'):
+            return None if impl.get('err') == 'TypeError' else 'idft2: a buffer that cannot hold complex values was not refused with TypeError'
+        if o == 'badshape':
+            return None if 'err' in impl else 'idft2: a buffer of the wrong shape was accepted'
         if 'err' in impl:
             return f'idft2 raised {impl["err"]}'
+        if o == 'complex':
+            if not impl.get('same_buffer'):
+                return 'idft2(..., out=buf) did not return the supplied buffer'
+            if impl.get('out_differs'):
+                return 'idft2(..., out=buf): the buffer does not hold the returned values'
+            msg = arr_close(impl['arr'], impl['fresh'], 1e-13)
+            if msg:
+                return 'idft2(..., out=buf) differs from a fresh allocation: ' + msg
         # idft2(F) = conj(dft2(conj F)) (/ size unless unitary)
         fc = [[[v[0], -v[1]] for v in row] for row in f]
         exp = defining_sum(fc, ar, ac, c['M'], c['N'], Fraction(c['shr']), Fraction(c['shc']), 0, 0, c['unitary'])
